@@ -162,24 +162,69 @@ func fieldValueKernel(rel, fn, litType, field, leanName, params, resultTy string
 	}
 }
 
+// loopVerdictKernel translates the body of the unique range loop of fn whose ranged-over expression contains marker into a verdict
+// per element: `return` = sp.ReturnVal, `continue` = sp.ContinueVal, falling off the end = fall. The loop's value variable is
+// known to the Spec's keys as canonVal whatever its name in the source.
+func loopVerdictKernel(rel, fn, marker, canonVal, leanName, params, resultTy, fall string, sp Spec) func() string {
+	return func() string {
+		fd := mustFunc(rel, fn)
+		t := &tr{sp: sp, file: parseFile(rp(rel))}
+		t.prepare(fd)
+		var loops []*ast.RangeStmt
+		ast.Inspect(fd.Body, func(n ast.Node) bool {
+			if r, ok := n.(*ast.RangeStmt); ok && strings.Contains(norm(src(t.subst(r.X))), norm(marker)) {
+				loops = append(loops, r)
+			}
+			return true
+		})
+		if len(loops) != 1 {
+			panic(bail{fmt.Sprintf("%s: expected exactly one range loop over %q in %s, found %d", rel, marker, fn, len(loops))})
+		}
+		r := loops[0]
+		t.aliasesOnPathTo(r)
+		if id, ok := r.Value.(*ast.Ident); ok && canonVal != "" && id.Name != canonVal {
+			t.alias(id.Name, ast.NewIdent(canonVal))
+		}
+		return fmt.Sprintf("/-- generated from %s func %s: body of the loop over `%s`, as a verdict per element -/\ndef %s %s : %s :=\n  %s\n",
+			rel, fn, src(r.X), leanName, params, resultTy, sp.Prelude+t.block(r.Body.List, fall, "  "))
+	}
+}
+
 // condKernel translates the condition of the unique `if` in fn whose condition source contains every marker.
 func condKernel(rel, fn string, markers []string, leanName, params string, sp Spec) func() string {
 	return func() string {
 		fd := mustFunc(rel, fn)
-		t := &tr{sp: sp}
+		t := &tr{sp: sp, file: parseFile(rp(rel))}
+		t.prepare(fd)
+		base := map[string]ast.Expr{}
+		for k, v := range t.aliases {
+			base[k] = v
+		}
 		ss := findStmts(fd, func(s ast.Stmt) bool {
 			i, ok := s.(*ast.IfStmt)
 			if !ok {
 				return false
 			}
-			c := src(i.Cond)
+			t.aliases = map[string]ast.Expr{}
+			for k, v := range base {
+				t.aliases[k] = v
+			}
+			t.aliasesOnPathTo(i)
+			c := norm(src(t.subst(i.Cond)))
 			for _, m := range markers {
-				if !strings.Contains(c, m) {
+				if !strings.Contains(c, norm(m)) {
 					return false
 				}
 			}
 			return true
 		})
+		if len(ss) == 1 {
+			t.aliases = map[string]ast.Expr{}
+			for k, v := range base {
+				t.aliases[k] = v
+			}
+			t.aliasesOnPathTo(ss[0])
+		}
 		if len(ss) != 1 {
 			panic(bail{fmt.Sprintf("%s: expected exactly one `if` mentioning %v in %s, found %d", rel, markers, fn, len(ss))})
 		}
